@@ -23,7 +23,10 @@ TWO_PI = 2 * math.pi
 # relative tolerances (relative to the largest field / hologram value of the compared set).
 # measured on the unchanged tree (seeds 1..6, thorough): see the final report / evidence notes.
 TOL = {"mie": 1e-9, "mie_far": 1e-9, "mie_rad": 1e-9, "layered": 1e-9, "mie_sup": 1e-9, "mielens": 1e-9,
-       "amielens": 1e-9, "multi": 1e-5, "tmatrix": 1e-5, "lens": 1e-6, "lens_grid": 1e-9}
+       "amielens": 1e-9, "multi": 1e-5, "tmatrix": 1e-5, "lens": 1e-6, "lens_grid": 1e-9, "lens_uneq": 1e-6}
+# Lens with quad_npts_theta != quad_npts_phi is a separate input class with its own finding key
+# (Lens._calc_scattering_matrix reshapes meshgrid output with the two sizes swapped): see the final report.
+UNEQ_KEY = "lens:quad_npts_unequal"
 CORR_TOL = 1e-9
 
 
@@ -66,7 +69,7 @@ def build_theory(t):
         return MieLens(lens_angle=t["lens_angle"])
     if k == "amielens":
         return AberratedMieLens(spherical_aberration=t["aberration"], lens_angle=t["lens_angle"])
-    if k in ("lens", "lens_grid"):
+    if k in ("lens", "lens_grid", "lens_uneq"):
         return Lens(t["lens_angle"], Mie(False, False), quad_npts_theta=t["ntheta"], quad_npts_phi=t["nphi"])
     raise ValueError(k)
 
@@ -301,14 +304,14 @@ def gen_points(rng, centre, rmin, rmax, npts, z=0.0):
 
 
 THEORY_KINDS = ["mie", "mie_far", "mie_rad", "layered", "mie_sup", "multi", "mielens", "amielens", "lens", "lens_grid",
-                "tmatrix"]
+                "lens_uneq", "tmatrix"]
 
 
 def gen_case(rng, tkind, opkind):
     """a point-detector exploration case"""
     optics = gen_optics(rng, tkind)
     mi = optics["mi"]
-    lensy = tkind in ("mielens", "amielens", "lens", "lens_grid")
+    lensy = tkind in ("mielens", "amielens", "lens", "lens_grid", "lens_uneq")
     if lensy:
         z = rng.choice([1, -1]) * u(rng, 0.5, 8.0)  # above and below the focal plane
     else:
@@ -319,9 +322,12 @@ def gen_case(rng, tkind, opkind):
         if tkind == "amielens":
             theory["aberration"] = u(rng, -2.0, 2.0)
     if tkind == "lens":
-        theory.update(lens_angle=u(rng, 0.3, 1.0), ntheta=rng.choice([20, 30]), nphi=60)
+        theory.update(lens_angle=u(rng, 0.3, 1.0), ntheta=60, nphi=60)
+    if tkind == "lens_uneq":
+        theory.update(lens_angle=u(rng, 0.3, 1.0), ntheta=rng.choice([20, 30, 45]), nphi=60)
     if tkind == "lens_grid":
-        theory.update(lens_angle=u(rng, 0.3, 1.0), ntheta=rng.choice([6, 10]), nphi=rng.choice([7, 12, 16]))
+        n = rng.choice([7, 12, 16])
+        theory.update(lens_angle=u(rng, 0.3, 1.0), ntheta=n, nphi=n)
     if tkind in ("mie_sup", "multi"):
         scat = gen_cluster(rng, z, mi, nmax=3 if tkind == "multi" else 4)
         centre = [sum(m["center"][i] for m in scat["members"]) / len(scat["members"]) for i in range(3)]
@@ -342,7 +348,7 @@ def gen_case(rng, tkind, opkind):
     else:
         scat = gen_sphere(rng, z, mi, absorbing=(rng.random() < 0.2 and tkind in ("mie", "mie_far")))
         centre = scat["center"]
-    if tkind == "lens":
+    if tkind in ("lens", "lens_uneq"):
         # keep k*rho*sin(lens_angle) well below nphi = 60 (the azimuthal rule is exact only below aliasing)
         k = TWO_PI * optics["mi"] / optics["wl"]
         rmax = min(2.5, 22.0 / k)
@@ -368,13 +374,15 @@ def gen_case(rng, tkind, opkind):
 
 def gen_grid_case(rng, tkind, mode):
     optics = gen_optics(rng, tkind, axis_pol=(mode == "gridsym"))
-    lensy = tkind in ("mielens", "lens")
+    lensy = tkind in ("mielens", "lens", "lens_uneq")
     z = (rng.choice([1, -1]) * u(rng, 0.5, 6.0)) if lensy else u(rng, 6.0, 15.0)
     theory = dict(kind=tkind)
     if tkind == "mielens":
         theory["lens_angle"] = u(rng, 0.3, 1.2)
     sp = rng.choice([0.1, 0.125, 0.07])
     if tkind == "lens":
+        theory.update(lens_angle=u(rng, 0.3, 0.9), ntheta=60, nphi=60)
+    if tkind == "lens_uneq":
         theory.update(lens_angle=u(rng, 0.3, 0.9), ntheta=20, nphi=60)
     if mode == "gridsym":
         nx = ny = rng.choice([7, 9, 11])
@@ -439,6 +447,8 @@ def judge(ctx, spec, res):
     ctx.explored += 1
     ctx.count("explore:%s:%s" % (tk, opk))
     key = "explore:%s:%s" % (tk, opk)
+    if tk == "lens_uneq":
+        key = "%s:%s" % (UNEQ_KEY, opk)
     if not res["finite"]:
         ctx.violation(key + ":nonfinite", "non-finite field or hologram for %s" % tk, dict(kind="explore", spec=spec, res=res))
         return
@@ -473,7 +483,7 @@ def stage_explore(ctx):
     for _ in range(ctx.n(2, 20)):
         for tk in ("mie", "mie_far", "mielens", "lens", "mie_sup", "multi"):
             specs.append(gen_grid_case(rng, tk, "gridshift"))
-        for tk in ("mie", "mie_far", "mielens", "lens"):
+        for tk in ("mie", "mie_far", "mielens", "lens", "lens_uneq"):
             specs.append(gen_grid_case(rng, tk, "gridsym"))
     tm_specs = [s for s in specs if s["theory"]["kind"] == "tmatrix"]
     other = [s for s in specs if s["theory"]["kind"] != "tmatrix"]
@@ -543,7 +553,7 @@ def mie_corr_exprs(spec):
     out = []
     for i in range(len(X)):
         pref = 1j / r[i] * np.exp(1j * r[i])
-        erad = complex(mieangfuncs.radial_field_mie(asbs[0, :], r[i], theta[i])) if rad else 0j
+        erad = complex(mieangfuncs.radial_field_mie(asbs[0:1, :], r[i], theta[i])) if rad else 0j
         ph = np.exp(-1j * k * c[2])
         e = ("cvclose %s %s (cv_mul QO %s (mie_assemble QO (%s, %s, %s, %s) %s %s %s %s %s %s (%s, %s))) %s" % (
             qlit(CORR_TOL), qlit(scale), clit(ph),
@@ -692,7 +702,11 @@ def stage_corr_lens(ctx):
         optics = gen_optics(rng, "lens")
         z = rng.choice([1, -1]) * u(rng, 0.5, 6.0)
         scat = gen_sphere(rng, z, optics["mi"])
-        th = dict(kind="lens_grid", lens_angle=u(rng, 0.3, 1.0), ntheta=rng.choice([2, 3]), nphi=rng.choice([3, 4, 5]))
+        if kcase % 3 == 2:
+            th = dict(kind="lens_uneq", lens_angle=u(rng, 0.3, 1.0), ntheta=rng.choice([2, 3]), nphi=rng.choice([4, 5]))
+        else:
+            n = rng.choice([3, 4])
+            th = dict(kind="lens_grid", lens_angle=u(rng, 0.3, 1.0), ntheta=n, nphi=n)
         det = gen_points(rng, scat["center"], 0.05, 3.0, 2)
         spec = dict(theory=th, scat=scat, det=det, optics=optics)
         for e, m in lens_corr_exprs(spec):
@@ -701,7 +715,8 @@ def stage_corr_lens(ctx):
         ctx.count("corr-lens:%dx%d" % (th["ntheta"], th["nphi"]))
         ctx.nontriv(("corr-lens", kcase))
     finish_corr(ctx, "C05lens", exprs, metas, "corr:lens_assemble",
-                "Lens(Mie) field differs from the model pupil sum (phi' - pol_angle recombination, lr->xyz, phase)")
+                "Lens(Mie) field differs from the model pupil sum (phi' - pol_angle recombination, lr->xyz, phase)",
+                keyfn=lambda m: (UNEQ_KEY + ":corr") if m["spec"]["theory"]["kind"] == "lens_uneq" else "corr:lens_assemble")
 
 
 # ------------------------------------------------------------------------------------------------
@@ -724,13 +739,16 @@ def stage_corr_centroid(ctx):
     finish_corr(ctx, "C05cen", exprs, metas, "corr:centroid", "Spheres.center differs from the model centroid")
 
 
-def finish_corr(ctx, tag, exprs, metas, key, what):
+def finish_corr(ctx, tag, exprs, metas, key, what, keyfn=None):
     mism, errors, _ = run_mismatch_cases(tag, REQ, exprs, chunk=40)
     ctx.corr_cases += len(exprs)
     for e in errors:
         ctx.violation("corr-eval-error", "model evaluation failed: " + e[:300], dict(kind="coq-error", log=e), nofail=True)
     for i in mism:
-        ctx.disagree(key, what, dict(expr=exprs[i][:2000], **metas[i]))
+        k = keyfn(metas[i]) if keyfn else key
+        w = what if k == key else ("Lens with quad_npts_theta != quad_npts_phi: scattering matrices are assigned to the wrong "
+                                   "polar nodes (model pupil sum and calc_field disagree)")
+        ctx.disagree(k, w, dict(expr=exprs[i][:2000], **metas[i]))
 
 
 # ------------------------------------------------------------------------------------------------
